@@ -15,7 +15,7 @@ func init() {
 	register(&Property{
 		Meta: report.Meta{
 			Property:    "C08",
-			Explanation: "Structural rules on the CID computation: (R1) constants — CIDFromBytes builds cid.V1Builder{Codec: dag-cbor 0x71, MhType: sha2-256 0x12, MhLength default} and the streaming path uses crypto/sha256, multihash code 0x12 and CIDv1 codec 0x71, so buffered and streaming agree; (R2) same bytes — each FromSealed hashes exactly the parameter it decodes, each ToSealed hashes exactly the bytes it returns, the streaming variants hand the CIDReader / CIDWriter that wraps the caller's stream to the codec and take CID() from the same object after the codec succeeded; CIDReader.Read hashes exactly p[:n] with the inner n and returns the inner results, CIDWriter.Write hashes and forwards the same p; (R3) whole stream — decoders are given the package function dagcbor.Decode (which rejects trailing bytes), not an options value; (R4) canonicity — each FromSealed* must pass, on every success path, through an enforcement of canonical form (byte comparison with the re-encoding). No such enforcement exists today: recorded as known finding D5 per entry point. Signature malleability (ECDSA s <-> n-s, DER variants) is not decidable here. In packages token, delegation, invocation and envelope every []byte argument of ipld.Decode, of a module function named Decode / FromDagCbor / FromDagJson / FromSealed / CIDFromBytes originates (through phis and spilled cells) in a parameter of the calling function.",
+			Explanation: "Structural rules on the CID computation: (R1) constants — CIDFromBytes builds cid.V1Builder{Codec: dag-cbor 0x71, MhType: sha2-256 0x12, MhLength default} and the streaming path uses crypto/sha256, multihash code 0x12 and CIDv1 codec 0x71, so buffered and streaming agree; (R2) same bytes — each FromSealed hashes exactly the parameter it decodes, each ToSealed hashes exactly the bytes it returns, the streaming variants hand the CIDReader / CIDWriter that wraps the caller's stream to the codec and take CID() from the same object after the codec succeeded; CIDReader.Read hashes exactly p[:n] with the inner n and returns the inner results, CIDWriter.Write hashes and forwards the same p; (R3) whole stream — decoders are given the package function dagcbor.Decode (which rejects trailing bytes), not an options value; (R4) canonicity — each FromSealed* must pass, on every success path, through an enforcement of canonical form (byte comparison with the re-encoding). No such enforcement exists today: recorded as known finding D5 per entry point. Signature malleability (ECDSA s <-> n-s, DER variants) is not decidable here. In packages token, delegation, invocation and envelope every []byte argument of ipld.Decode, of a module function named Decode / FromDagCbor / FromDagJson / FromSealed / CIDFromBytes originates (through phis and spilled cells) in a parameter of the calling function. (R2) in packages delegation and invocation the node terms (over the receiver and parameter names, new helpers seen through) handed to ipld.Encode by (*Token).Encode and to ipld.EncodeStreaming by (*Token).EncodeWriter are the same set, unless one calls the other.",
 			Assumptions: []string{"go-cid / go-multihash compute what their constants say", "crypto/sha256"},
 			Trusted:     []string{"go-cid", "go-multihash", "crypto/sha256", "go-ipld-prime dagcbor"},
 			NotDecided:  []string{"canonicity inside the dagcbor codec", "signature malleability"},
@@ -26,7 +26,7 @@ func init() {
 
 func runC08(x *Ctx) {
 	x.C.Rule("C08.R1", "CID constants: CIDv1, dag-cbor, sha2-256, buffered = streaming", 4)
-	x.C.Rule("C08.R2", "the bytes hashed are the bytes decoded / returned; CIDReader/CIDWriter transparency; decoders pass their input on unchanged", 16)
+	x.C.Rule("C08.R2", "the bytes hashed are the bytes decoded / returned; CIDReader/CIDWriter transparency; decoders pass their input on unchanged; buffered and streaming encoders encode one node", 18)
 	x.C.Rule("C08.R3", "decoders use the package function dagcbor.Decode", 1)
 	x.C.Rule("C08.R4", "canonical form enforced before a CID is reported for received bytes", 6)
 
@@ -275,6 +275,7 @@ func runC08(x *Ctx) {
 	// ---------------- R3
 	{
 		bytesPassedOn(x)
+		sameNode(x)
 		packageCodecs(x, "C08.R3", 8, "token", "token/delegation", "token/invocation", "token/internal/envelope", "pkg/container")
 	}
 
